@@ -159,7 +159,11 @@ pub fn show_error(e: &MpdProtocolError) -> String {
 
 fn show_outcome(r: Result<Option<Response>, MpdProtocolError>) -> (String, bool) {
     match r {
-        Ok(Some(resp)) => (show_response(&resp), true),
+        // a decoded response is more than what fields() shows right away: its accessors must agree with the wire order too
+        Ok(Some(resp)) => match crate::framecases::accessors_differ(&resp) {
+            Some(d) => (format!("INCONSISTENT {}", d.replace(' ', "_")), true),
+            None => (show_response(&resp), true),
+        },
         Ok(None) => ("eof".into(), false),
         Err(e) => (show_error(&e), false),
     }
